@@ -41,6 +41,7 @@ structure Sig where
   scaled : Nat
   hashes : List Nat
   md5 : String := ""       -- `sig.md5sum()`: supplied by the harness (md5 itself is not modelled)
+  track : Bool := false    -- `track_abundance`; the stream's abundance of hash `h` is `h % 5 + 1`
 deriving Repr, DecidableEq, Inhabited
 
 /-- `str(sig)` = `_display_name()`: the name, else the filename, else the first 8 characters of the md5sum -/
